@@ -14,8 +14,19 @@ Thorough adds every link of martini3001 / martini22 / elnedyn22 on the coarse-gr
 martinize2 builds from the tier-0 / tier-1 test structures (captured just before DoLinks).
 
 networkx' GraphMatcher is NOT trusted: what it returns is compared with the verified reference.
-Geometry-derived parameters stay symbolic in the model and are evaluated here (numeric oracle,
-tolerance 1e-9) on the atoms of the placement.
+Geometry-derived parameters: the model says WHICH atoms every effector reads (link-node names through
+the placement, in the effector's order), the error outcomes and the format tag; ParamDistance between
+two atoms on the integer lattice (coordinates = integers / 32 nm) is computed EXACTLY (squared
+distance) by the model and the real value must satisfy value**2 == d2 within double rounding; angles /
+dihedrals (and distances off the lattice) are evaluated here (numeric oracle, tolerance 1e-9).
+
+More streams (one protocol line per case):
+  effnew / effeq / effcall   LinkParameterEffector.__init__ / __eq__ / __call__ called directly
+  table                      add_interaction, add_or_replace_interaction, remove_interaction,
+                             remove_matching_interaction, get_interaction called directly
+The apply stream also compares the SEQUENCE of table calls the real DoLinks makes with the model's event
+list (lean/VermouthModel/C05_Run.lean), the molecule's log entries, the kind of the first exception,
+and the model's verdict "no later step interferes with this addition" with the final table.
 """
 import copy
 import itertools
@@ -30,10 +41,24 @@ chk.extra['rule'] = ('random links over the documented features (order prefixes 
                      'unordered numbering, branches, cycles, chain breaks); a match/apply case is non-trivial if '
                      'the matcher found >= 1 raw match and (>= 1 placement was yielded or a raw match was '
                      'rejected by the non-edge / pattern / order filters); an order case if both orders are valid; '
-                     'distinct = distinct protocol line')
+                     'links also carry effectors of every class incl. the base class and names outside the link, atoms on '
+                     'an integer lattice (exact distances) / off it / without coordinates, log entries, meta=None, three '
+                     'or more orders of which one is invalid; effector streams (init / eq / call on random matches) are '
+                     'non-trivial when the outcome is a value or a specific exception; table streams when at least one '
+                     'API call was made; distinct = distinct protocol line')
 chk.trusted.append('harness/c05.py: encoding of molecules and links read off the real objects, canonicalisation, '
-                   'brute-force Python oracle (independent statement of the link conditions), numeric geometry oracle')
-chk.lean(['VermouthProps.C05'], 'driver_c05')
+                   'brute-force Python oracle (independent statement of the link conditions), numeric geometry oracle, '
+                   'exact-integer distance oracle on the lattice, recorder wrapping the Molecule table methods')
+chk.lean(['VermouthProps.C05', 'VermouthProps.C05_Run', 'VermouthProps.C05_Eff'], 'driver_c05')
+
+if os.environ.get('VERIF_C05_DEBUG'):
+    _case, _seen = chk.case, []
+
+    def _debug_case(cid, inp, impl, model=None, errs=(), nontrivial=True, finding=None):
+        if cid.startswith('corpus'):
+            _seen.append([cid, impl, model, list(errs)])
+        return _case(cid, inp, impl, model, errs, nontrivial, finding=finding)
+    chk.case = _debug_case
 
 import numpy as np
 import networkx as nx
@@ -46,7 +71,11 @@ from vermouth.processors import do_links
 from vermouth.processors.do_links import match_link, match_order, _interpret_order, DoLinks, _atoms_match
 
 quiet_vermouth_logs()
-EFFECTORS = {ParamDistance: 'dist', ParamAngle: 'angle', ParamDihedral: 'dihedral', ParamDihedralPhase: 'dihphase'}
+EFFECTORS = {ParamDistance: 'dist', ParamAngle: 'angle', ParamDihedral: 'dihedral', ParamDihedralPhase: 'dihphase',
+             LinkParameterEffector: 'base'}
+EFF_CLASSES = {v: k for k, v in EFFECTORS.items()}
+LATTICE = 32          # lattice positions are integers / LATTICE (exact in binary floating point)
+RUN_ERRORS = (Exception,)      # whatever is raised is an outcome to be judged, never a crash of the check
 
 
 # ----------------------------------------------------------------------------
@@ -82,7 +111,15 @@ def ptval(v):
 
 
 def pattrs(d, f=pval, skip=()):
-    return [[str(k), f(v)] for k, v in d.items() if k not in skip]
+    out = []
+    for k, v in d.items():
+        if k in skip:
+            continue
+        if k == 'order' and isinstance(v, float) and not float(v).is_integer():
+            out.append([str(k), None])      # a number that is not an integer is not an order (model: `bad`)
+        else:
+            out.append([str(k), f(v)])
+    return out
 
 
 def simple_attrs(d):
@@ -100,11 +137,64 @@ def mod_names(node):
     return [[str(x) for x in mod.name] for mod in node.get('modifications', [])]
 
 
-def pparam(p, kmap=None):
+def pparam(p, key=None):
     if isinstance(p, LinkParameterEffector):
-        keys = [kmap[k] for k in p.keys] if kmap is not None else list(p.keys)
+        keys = [key(k) for k in p.keys] if key is not None else list(p.keys)
         return [EFFECTORS[type(p)], keys, p.format]
     return str(p)
+
+
+def lattice_point(pos):
+    """integer lattice coordinates of a position, or None if it is not on the lattice"""
+    out = []
+    for c in np.asarray(pos, dtype=float).reshape(-1):
+        v = float(c) * LATTICE
+        if not (v == int(v) and abs(v) < 2 ** 20):
+            return None
+        out.append(int(v))
+    return out if len(out) == 3 else None
+
+
+def enc_pos(mol):
+    """[[node, pos]..]: None = no position key, [x, y, z] = lattice point, 'o' = any other position"""
+    out = []
+    for n in mol.nodes:
+        if 'position' not in mol.nodes[n]:
+            out.append([n, None])
+        else:
+            lp = lattice_point(mol.nodes[n]['position'])
+            out.append([n, lp if lp is not None else 'o'])
+    return out
+
+
+def meta_of(i):
+    """meta of a link interaction (None is what add_or_replace_interaction turns into {})"""
+    return i.meta if i.meta is not None else {}
+
+
+def enc_link_logs(link):
+    return [[int(level), str(entry), [str(a) for a in args]]
+            for level, entries in link.log_entries.items() for entry, args in entries.items()]
+
+
+def canon_logs(mol, owner=None):
+    """molecule.log_entries as sorted [[level, entry, [item..]]..]; a placement (the very dictionary
+    match_link yielded; owner: id -> names of its link) becomes a sorted list of [link node index, atom]"""
+    out = []
+    for level, entries in mol.log_entries.items():
+        for entry, args in entries.items():
+            items = []
+            for a in args:
+                if isinstance(a, dict):
+                    names = (owner or {}).get(id(a))
+                    if names is None:
+                        items.append('unknown placement %r' % (a,))
+                    else:
+                        items.append(sorted([names.index(k), int(v)] for k, v in a.items()))
+                else:
+                    items.append(str(a))
+            out.append([int(level), str(entry), items])
+    return sorted(out, key=lambda e: (e[0], e[1]))
 
 
 def lit_param(p):
@@ -153,12 +243,12 @@ def enc_link(link):
     for ty, lst in link.removed_interactions.items():
         for d in lst:
             aa = getattr(d, 'atom_attrs', None)
-            rem.append([ty, [key(a) for a in d.atoms], [pparam(p, kmap) for p in d.parameters],
+            rem.append([ty, [key(a) for a in d.atoms], [pparam(p, key) for p in d.parameters],
                         None if aa is None else [pattrs(a, ptval) for a in aa], pattrs(d.meta, ptval)])
     ints = []
     for ty, lst in link.interactions.items():
         for i in lst:
-            ints.append([ty, [key(a) for a in i.atoms], [pparam(p, kmap) for p in i.parameters], pattrs(i.meta)])
+            ints.append([ty, [key(a) for a in i.atoms], [pparam(p, key) for p in i.parameters], pattrs(meta_of(i))])
     return [nodes, edges, pattrs(link.molecule_meta, ptval), nes, pats, rem, ints, sorted(link.citations)], names
 
 
@@ -285,13 +375,12 @@ def o_fits(mol, link, pl):
     by_order = {}
     for o, r in with_order:
         by_order.setdefault(o, r)
-    for (o1, r1), (o2, r2) in itertools.combinations(by_order.items(), 2):
-        rel = o_order_rel(o1, r1, o2, r2)
-        if rel is None:
-            return None
-        if not rel:
-            return False
-    return True
+    rels = [o_order_rel(o1, r1, o2, r2) for (o1, r1), (o2, r2) in itertools.combinations(by_order.items(), 2)]
+    if any(r is None for r in rels):
+        # a relation involving something that is not an order cannot be evaluated: the code raises when it
+        # reaches such a pair; if another pair is violated, which of the two it meets first is not specified
+        return 'either' if any(r is False for r in rels) else None
+    return all(rels)
 
 
 def o_all_placements(mol, link, cap=60000):
@@ -302,14 +391,16 @@ def o_all_placements(mol, link, cap=60000):
         return []
     names = list(link.nodes)
     cands = [[m for m in mol.nodes if o_atom_ok(mol.nodes[m], link.nodes[n])] for n in names]
-    out, steps = [], [0]
+    out, steps, unspecified = [], [0], [False]
 
     def rec(i, pl):
         if i == len(names):
             r = o_fits(mol, link, pl)
             if r is None:
                 raise ZeroDivisionError
-            if r:
+            if r == 'either':
+                unspecified[0] = True
+            elif r:
                 out.append(dict(pl))
             return
         for c in cands[i]:
@@ -329,6 +420,8 @@ def o_all_placements(mol, link, cap=60000):
         return 'too-large'
     except ZeroDivisionError:
         return 'raises'
+    if unspecified[0]:
+        return ('either', out)
     return out
 
 
@@ -352,7 +445,30 @@ def g_eval(name, pts):
     return ang
 
 
+class Degenerate:
+    """the independent formula has no value here (coinciding / collinear atoms): nothing to compare"""
+    def __repr__(self):
+        return 'Degenerate'
+
+
+def g_value(name, pts, fmt):
+    try:
+        with np.errstate(all='ignore'):
+            val = g_eval(name, pts)
+    except Exception:
+        val = float('nan')
+    if val != val:
+        chk.count('geometry_degenerate_not_compared')
+        return Degenerate()
+    # angles within rounding of the branch cut are formatted differently for no reason
+    if fmt is not None:
+        val = '{value:{format}}'.format(value=val, format=fmt)
+    return val
+
+
 def close(a, b):
+    if isinstance(a, Degenerate) or isinstance(b, Degenerate):
+        return True
     if isinstance(a, str) or isinstance(b, str):
         return a == b
     d = abs(a - b)
@@ -376,14 +492,40 @@ def clone(mol, ff=None):
                                 for i in lst]
     new.citations = set(mol.citations)
     new.nrexcl = mol.nrexcl
+    for level, entries in mol.log_entries.items():
+        for entry, args in entries.items():
+            new.log_entries[level][entry] = list(args)
     return new
+
+
+def shuffled_outcomes(mol, link, rng, n=3):
+    """match_link with the pairs of the order_match dictionary formed in other dictionary orders (the
+    order of that dictionary is the matcher's enumeration order, which is not part of the behaviour):
+    do_links.combinations is replaced by a version that permutes the items first"""
+    names = list(link.nodes)
+    outs = []
+    orig = do_links.combinations
+    try:
+        for _ in range(n):
+            def perm_combinations(items, r, _rng=rng):
+                items = list(items)
+                _rng.shuffle(items)
+                return itertools.combinations(items, r)
+            do_links.combinations = perm_combinations
+            try:
+                outs.append(enc(canon_placements(list(match_link(mol, link)), names)))
+            except RUN_ERRORS:
+                outs.append('error')
+    finally:
+        do_links.combinations = orig
+    return outs
 
 
 def real_match(mol, link):
     names = list(link.nodes)
     try:
         pls = list(match_link(mol, link))
-    except (ValueError, TypeError, KeyError):
+    except RUN_ERRORS:
         return 'error', None, None
     if vermouth.molecule.attributes_match(mol.meta, link.molecule_meta):
         gm = nx.isomorphism.GraphMatcher(mol, link, node_match=_atoms_match)
@@ -394,30 +536,41 @@ def real_match(mol, link):
 
 
 def canon_model_match(s):
+    """-> (canonical answer, order_dependent): with order_dependent the code may also raise"""
     if s in ('error', None, 'bad-op', 'bad-line', 'driver-died'):
-        return s
+        return s, False
     d = dec(s)
-    return '%d %s' % (d[0], enc(sorted(d[1])))
+    if d[0] == 'either':
+        return '%d %s' % (d[1], enc(sorted(d[2]))), True
+    return '%d %s' % (d[0], enc(sorted(d[1]))), False
 
 
-def canon_state(nodes, edges, inters, cites):
-    """nodes [[key, [[k,v]..]]..] in order; edges; inters [[ty, atoms, params, meta]..] in order"""
+def canon_state(nodes, edges, inters, cites, logs=None, calls=None):
+    """nodes [[key, [[k,v]..]]..] in order; edges; inters [[ty, atoms, params, meta]..] in order;
+    logs: canonical log entries; calls: the sequence of table calls [[kind, type, atoms]..]"""
     n = [[k, sorted(a)] for k, a in nodes]
     e = sorted(sorted(x) for x in edges)
     by = {}
     for ty, atoms, params, meta in inters:
         by.setdefault(ty, []).append([atoms, params, sorted(meta)])
-    return [n, e, [[ty, by[ty]] for ty in sorted(by)], sorted(cites)]
+    out = [n, e, [[ty, by[ty]] for ty in sorted(by)], sorted(cites)]
+    if logs is not None:
+        out.append(logs)
+    if calls is not None:
+        out.append(calls)
+    return out
 
 
-def real_state(mol):
+def real_state(mol, owner=None, calls=None):
     nodes = [[n, pattrs(simple_attrs(mol.nodes[n]))] for n in mol.nodes]
     edges = [[u, v] for u, v in mol.edges]
     inters = []
     for ty, lst in mol.interactions.items():
         for i in lst:
             inters.append([ty, list(i.atoms), [unlit_param(lit_param(p)) for p in i.parameters], pattrs(i.meta)])
-    return canon_state(nodes, edges, inters, sorted(mol.citations))
+    return canon_state(nodes, edges, inters, sorted(mol.citations),
+                       canon_logs(mol, owner) if owner is not None else None,
+                       [c[:3] for c in calls] if calls is not None else None)
 
 
 def table_state(mol):
@@ -427,11 +580,47 @@ def table_state(mol):
     return inters, {n: dict(simple_attrs(mol.nodes[n])) for n in mol.nodes}
 
 
+class CallRecorder:
+    """records the sequence of interaction-table calls made on molecules (the originals still run)"""
+    def __init__(self):
+        self.calls = {}          # id(molecule) -> [[kind, type, atoms, parameters, meta]..]
+
+    def __enter__(self):
+        rec = self
+        self.orig = (Molecule.remove_matching_interaction, Molecule.add_or_replace_interaction,
+                     Molecule.remove_nodes_from)
+        o_rem, o_add, o_drop = self.orig
+
+        def rem(self, type_, template):
+            rec.calls.setdefault(id(self), []).append(['rem', type_, [int(a) for a in template.atoms],
+                                                       list(template.parameters), None])
+            return o_rem(self, type_, template)
+
+        def add(self, type_, atoms, parameters, meta=None, citations=None):
+            rec.calls.setdefault(id(self), []).append(['add', type_, [int(a) for a in atoms], list(parameters),
+                                                       None if meta is None else dict(meta)])
+            return o_add(self, type_, atoms, parameters, meta, citations)
+
+        def drop(self, nodes):
+            nodes = list(nodes)
+            rec.calls.setdefault(id(self), []).append(['drop', '', [int(a) for a in nodes], [], None])
+            return o_drop(self, nodes)
+        Molecule.remove_matching_interaction, Molecule.add_or_replace_interaction, Molecule.remove_nodes_from = rem, add, drop
+        return self
+
+    def __exit__(self, *a):
+        Molecule.remove_matching_interaction, Molecule.add_or_replace_interaction, Molecule.remove_nodes_from = self.orig
+
+
 def run_links(mol):
     """DoLinks.run_molecule on `mol` (modified in place), recording per link the placements the
-    code consumed and the placements on the molecule as it was when the link started"""
+    code consumed and the placements on the molecule as it was when the link started; the error is
+    'match' when match_link raised, else the name of the exception"""
     used, snaps = [], []
     run_links.states = states = []
+    run_links.owner = owner = {}
+    run_links.keep = keep = []
+    in_match = [False]
     orig = do_links.match_link
 
     def wrapper(molecule, link):
@@ -443,47 +632,94 @@ def run_links(mol):
             snaps.append(None)
         rec = []
         used.append(rec)
-        for pl in orig(molecule, link):
-            rec.append(dict(pl))
-            yield pl
+        names = list(link.nodes)
+        try:
+            for pl in orig(molecule, link):
+                rec.append(dict(pl))
+                owner[id(pl)] = names
+                keep.append(pl)
+                yield pl
+        except Exception:
+            in_match[0] = True
+            raise
     do_links.match_link = wrapper
-    try:
-        DoLinks().run_molecule(mol)
-        err = None
-    except (ValueError, TypeError, KeyError) as e:
-        err = type(e).__name__
-    finally:
-        do_links.match_link = orig
+    with CallRecorder() as cr:
+        try:
+            DoLinks().run_molecule(mol)
+            err = None
+        except RUN_ERRORS as e:
+            err = 'match' if in_match[0] else type(e).__name__
+        finally:
+            do_links.match_link = orig
+    run_links.calls = cr.calls.get(id(mol), [])
     return err, used, snaps
 
 
+class ExactDist:
+    """the model's exact squared distance (lattice units squared) with the format tag"""
+    def __init__(self, d2, fmt):
+        self.d2, self.fmt = d2, fmt
+        self.d2f = d2 / float(LATTICE * LATTICE)          # exact: d2 < 2**42, LATTICE a power of two
+
+    def value(self):
+        v = math.sqrt(self.d2f)
+        return v if self.fmt is None else '{value:{format}}'.format(value=v, format=self.fmt)
+
+    def agrees(self, real):
+        if self.fmt is not None:
+            return isinstance(real, str) and real == self.value()
+        if isinstance(real, (str, list)) or real is None:
+            return False
+        r = float(real)
+        # r = sqrt(d2f) correctly rounded or nearly so: r*r is d2f within three roundings
+        return abs(r * r - self.d2f) <= 2.0 ** -50 * self.d2f
+
+    def __repr__(self):
+        return 'ExactDist(%d/%d, %r) = %r' % (self.d2, LATTICE * LATTICE, self.fmt, self.value())
+
+
+def model_param(p, positions):
+    """evaluated parameter of the model -> value (numeric oracle for symbolic ones) or ExactDist"""
+    if isinstance(p, list):
+        if p[0] == 'dist2':
+            chk.count('model_exact_squared_distance')
+            return ExactDist(p[1], p[2])
+        name, keys, fmt = p
+        return g_value(name, [positions[k] for k in keys], fmt)
+    return unlit_param(p)
+
+
 def model_state(s, positions):
-    """decode the model's answer; evaluate symbolic effectors with the numeric oracle"""
-    if s in ('error', None, 'bad-op', 'bad-line', 'driver-died'):
-        return s
+    """decode the model's answer -> (state | error string, maybe, events); `maybe`: some match_link of the
+    run may also have raised (dictionary order), events: the model's event list with its verdicts"""
+    if s in (None, 'bad-op', 'bad-line', 'driver-died'):
+        return s, False, None
     d = dec(s)
-    nodes, edges, inters, cites = d
+    maybe = bool(d[0])
+    if d[1] == 'error':
+        return 'error:' + str(d[2]), maybe, None
+    if d[1] == 'RUN-DIFFERS':
+        return 'model: applyLinks and the replay of its event list differ', maybe, None
+    nodes, edges, inters, cites, logs, events = d[1:7]
+    model_state.attr_writes = d[7] if len(d) > 7 else None
     out = []
     for ty, atoms, params, meta in inters:
-        ps = []
-        for p in params:
-            if isinstance(p, list):
-                name, keys, fmt = p
-                try:
-                    val = g_eval(name, [positions[k] for k in keys])
-                except Exception:
-                    val = float('nan')
-                if fmt is not None:
-                    val = '{value:{format}}'.format(value=val, format=fmt)
-                ps.append(val)
-            else:
-                ps.append(unlit_param(p))
-        out.append([ty, atoms, ps, meta])
-    return canon_state(nodes, edges, out, cites)
+        out.append([ty, atoms, [model_param(p, positions) for p in params], meta])
+    mlogs = sorted([[lv, en, [it if isinstance(it, str) else sorted(it) for it in items]] for lv, en, items in logs],
+                   key=lambda e: (e[0], e[1]))
+    calls = [[e[0], e[1], e[2]] if e[0] in ('add', 'rem') else ['drop', '', e[1]]
+             for e in events if e[0] in ('add', 'rem', 'drop')]
+    return canon_state(nodes, edges, out, cites, mlogs, calls), maybe, events
 
 
 def states_agree(a, b):
-    """structural equality with a tolerance on floats"""
+    """structural equality with a tolerance on floats (exact squared distances: double rounding)"""
+    if isinstance(a, ExactDist):
+        return a.agrees(b)
+    if isinstance(b, ExactDist):
+        return b.agrees(a)
+    if isinstance(a, Degenerate) or isinstance(b, Degenerate):
+        return True
     if isinstance(a, float) or isinstance(b, float):
         return (not isinstance(a, (list, str))) and (not isinstance(b, (list, str))) and \
             a is not None and b is not None and close(float(a), float(b))
@@ -493,31 +729,47 @@ def states_agree(a, b):
 
 
 def show(state):
-    return json.dumps(state, default=str, sort_keys=True)
+    return json.dumps(state, default=repr, sort_keys=True)
 
 
 # ----------------------------------------------------------------------------
 # oracle on the result of DoLinks
 # ----------------------------------------------------------------------------
 def eval_params(params, mol_positions, pl):
+    """the link's parameters on the placement, stated independently: a distance between two lattice
+    points from exact integer arithmetic (ExactDist), everything else numerically"""
     out = []
     for p in params:
         if isinstance(p, LinkParameterEffector):
-            val = g_eval(EFFECTORS[type(p)], [mol_positions[pl[k]] for k in p.keys])
-            if p.format is not None:
-                val = '{value:{format}}'.format(value=val, format=p.format)
-            out.append(val)
+            pts = [mol_positions[pl[k]] for k in p.keys]
+            lps = [lattice_point(x) for x in pts]
+            if type(p) is ParamDistance and all(lp is not None for lp in lps):
+                d2 = sum((a - b) * (a - b) for a, b in zip(*lps))
+                out.append(ExactDist(d2, p.format))
+                continue
+            out.append(g_value(EFFECTORS[type(p)], pts, p.format))
         else:
             out.append(p)
     return out
 
 
+def param_close(x, y):
+    if isinstance(x, ExactDist):
+        return x.agrees(y)
+    if isinstance(y, ExactDist):
+        return y.agrees(x)
+    if isinstance(x, Degenerate) or isinstance(y, Degenerate):
+        return True
+    if isinstance(x, str) != isinstance(y, str):
+        return False
+    return close(x, y)
+
+
 def params_close(a, b):
-    return len(a) == len(b) and all(close(x, y) if not (isinstance(x, str) != isinstance(y, str)) else False
-                                    for x, y in zip(a, b))
+    return len(a) == len(b) and all(param_close(x, y) for x, y in zip(a, b))
 
 
-def apply_oracle(before, after, links, snaps, used, positions):
+def apply_oracle(before, after, links, snaps, used, positions, calls=None):
     """the property on the observable result (independent of the model)"""
     errs = []
     removed = set(before.nodes) - set(after.nodes)
@@ -538,8 +790,8 @@ def apply_oracle(before, after, links, snaps, used, positions):
                     events.append(('rem', ty, tuple(pl[a] for a in d.atoms), d))
             for ty, lst in link.interactions.items():
                 for i in lst:
-                    events.append(('add', ty, tuple(pl[a] for a in i.atoms), i.meta.get('version', 0),
-                                   eval_params(i.parameters, positions, pl), dict(i.meta), li))
+                    events.append(('add', ty, tuple(pl[a] for a in i.atoms), meta_of(i).get('version', 0),
+                                   eval_params(i.parameters, positions, pl), dict(meta_of(i)), li))
     # 1. every fitting placement was used (placements fitting the molecule as it was when the link started)
     for li, (s, u) in enumerate(zip(snaps, used)):
         if s is None:
@@ -630,6 +882,43 @@ def apply_oracle(before, after, links, snaps, used, positions):
     e1 = {frozenset(x) for x in after.edges}
     if e0 != e1:
         errs.append('edges changed: %s' % sorted(map(sorted, e0 ^ e1)))
+    # 6. what the code WRITES, call by call: every interaction of every link on every placement used, on
+    #    exactly the placement's atoms, with the parameters computed from exactly the atoms the placement
+    #    assigns to the effector's names (distances between lattice points: exact within double rounding)
+    if calls is not None:
+        real_adds = [c for c in calls if c[0] == 'add']
+        if len(real_adds) != len(adds):
+            errs.append('%d interactions were written, the links on the placements used ask for %d'
+                        % (len(real_adds), len(adds)))
+        for c, e in zip(real_adds, adds):
+            if c[1] != e[1] or tuple(c[2]) != e[2]:
+                errs.append('interaction %s %s was written where the link asks for %s %s' % (c[1], c[2], e[1], e[2]))
+            elif not params_close(list(c[3]), e[4]):
+                errs.append('interaction %s %s was written with parameters %s, the placement gives %s'
+                            % (c[1], c[2], c[3], e[4]))
+            elif (c[4] or {}) != e[5]:
+                errs.append('interaction %s %s was written with meta %s instead of %s' % (c[1], c[2], c[4], e[5]))
+            if any(isinstance(x, ExactDist) for x in e[4]):
+                chk.count('oracle_exact_distance_checked')
+        real_drops = [c for c in calls if c[0] == 'drop']
+        if len(real_drops) != len(used):
+            errs.append('remove_nodes_from was called %d times for %d links' % (len(real_drops), len(used)))
+    # 7. the log lines of a link are recorded on the molecule once per placement used: its format arguments
+    #    followed by the placement, after whatever the molecule already held under that line
+    def plain(items):
+        return [sorted((str(k), int(v)) for k, v in a.items()) if isinstance(a, dict) else str(a) for a in items]
+    want_logs = {(int(lv), str(en)): plain(args) for lv, ents in before.log_entries.items() for en, args in ents.items()}
+    for li, link in enumerate(links):
+        if li >= len(used):
+            break
+        for pl in used[li]:
+            for lv, ents in link.log_entries.items():
+                for en, args in ents.items():
+                    want_logs.setdefault((int(lv), str(en)), []).extend(plain(list(args) + [pl]))
+    got_logs = {(int(lv), str(en)): plain(args) for lv, ents in after.log_entries.items() for en, args in ents.items()}
+    for k in sorted(set(want_logs) | set(got_logs)):
+        if want_logs.get(k, []) != got_logs.get(k, []):
+            errs.append('log entry %s holds %s, the placements used give %s' % (k, got_logs.get(k), want_logs.get(k)))
     return errs
 
 
@@ -639,8 +928,8 @@ def o_template_matches(entry, attrs_options, atoms, params, atom_attrs, meta):
     ty, e_atoms, e_params, e_meta = entry
     if tuple(e_atoms) != tuple(atoms):
         return False
-    if params and not (len(params) == len(e_params) and all(close(x, y) if not isinstance(x, str) and not isinstance(y, str)
-                                                             else x == y for x, y in zip(params, e_params))):
+    if params and not (len(params) == len(e_params) and all(
+            param_close(x, y) if not (isinstance(x, str) and isinstance(y, str)) else x == y for x, y in zip(params, e_params))):
         return False
     if not o_attrs_ok(e_meta, meta):
         return False
@@ -666,7 +955,7 @@ def removal_oracle(states, links, used, positions):
                     rems.append((ty, tuple(pl[a] for a in d.atoms), eval_params(d.parameters, positions, pl), aa, dict(d.meta)))
             for ty, lst in link.interactions.items():
                 for i in lst:
-                    adds.append((ty, tuple(pl[a] for a in i.atoms), i.meta.get('version', 0)))
+                    adds.append((ty, tuple(pl[a] for a in i.atoms), meta_of(i).get('version', 0)))
 
         def matches(entry, r, strict):
             """strict: with the attributes the atoms certainly had (no replace in this link, or no per-atom
@@ -743,13 +1032,14 @@ RESNAMES = ['ALA', 'GLY', 'LYS']
 SS = ['H', 'C', 'E']
 MODNAMES = ['N-ter', 'C-ter', 'PHOS']
 ORDERS = [0, 0, 1, -1, 2, -2, '>', '>>', '<', '<<', '*', '**', '>>>', '***']
-BAD_ORDERS = ['', '><', '+', '>*', 'a', '-', None, True, False, '0', '> ']
+BAD_ORDERS = ['', '><', '+', '>*', 'a', '-', None, True, False, '0', '> ', 1.5, -0.5]
 
 
 def gen_molecule(rng, ff, nres=None):
     mol = Molecule(force_field=ff)
     mol.meta = rng.choice([{}, {}, {'extdih': True}, {'idr': True, 'tag': 'x'}, {'extdih': False}, {'tag': None}])
     nres = nres or rng.randint(1, 6)
+    no_position_allowed = rng.random() < 0.25
     style = rng.choice(['consecutive', 'gaps', 'gaps', 'icode', 'unordered', 'negative'])
     resids, r = [], rng.choice([1, 1, 5, -3, 0])
     for i in range(nres):
@@ -772,8 +1062,14 @@ def gen_molecule(rng, ff, nres=None):
         resname = rng.choice(RESNAMES)
         nodes = []
         for nm in names:
-            attrs = {'atomname': nm, 'resid': rid, 'resname': resname, 'atype': rng.choice(['P', 'Q', 'N']),
-                     'position': np.array([rng.uniform(-2, 2) for _ in range(3)])}
+            attrs = {'atomname': nm, 'resid': rid, 'resname': resname, 'atype': rng.choice(['P', 'Q', 'N'])}
+            if rng.random() < 0.88:
+                # a point of the lattice (exact in floating point): distances are checked exactly
+                attrs['position'] = np.array([rng.randint(-2 * LATTICE, 2 * LATTICE) / float(LATTICE) for _ in range(3)])
+            elif rng.random() < 0.9 or not no_position_allowed:
+                attrs['position'] = np.array([rng.uniform(-2, 2) for _ in range(3)])
+            else:
+                chk.count('molecule_node_without_position')
             if rng.random() < 0.7:
                 attrs['cgsecstruct'] = rng.choice(SS)
             elif rng.random() < 0.3:
@@ -807,7 +1103,13 @@ def gen_molecule(rng, ff, nres=None):
             mol2.add_node(n, **mol.nodes[n])
         mol2.add_edges_from(mol.edges)
         mol = mol2
+    if rng.random() < 0.1:
+        # log entries the molecule already carries (from its blocks)
+        mol.log_entries[rng.choice([20, 30])][rng.choice(LOG_LINES)] = ['pre%d' % rng.randint(0, 3)]
     return mol
+
+
+LOG_LINES = ['link applied', 'check {atomname}', 'unusual bond']
 
 
 def add_initial_interactions(rng, mol):
@@ -815,7 +1117,10 @@ def add_initial_interactions(rng, mol):
         if rng.random() < 0.6:
             meta = rng.choice([{}, {}, {'group': 'g'}, {'version': 1}, {'version': 0}])
             atoms = (u, v) if rng.random() < 0.8 else (v, u)
-            mol.add_interaction('bonds', atoms, [rng.choice(['1', '2']), rng.choice(['0.35', '0.47']), '1250'], dict(meta))
+            if meta or rng.random() < 0.5:
+                mol.add_interaction('bonds', atoms, [rng.choice(['1', '2']), rng.choice(['0.35', '0.47']), '1250'], dict(meta))
+            else:
+                mol.add_interaction('bonds', atoms, [rng.choice(['1', '2']), rng.choice(['0.35', '0.47']), '1250'])
             if rng.random() < 0.4:
                 for ver in rng.sample([1, 2, 3], rng.choice([1, 1, 2])):
                     if ver != meta.get('version', 0):
@@ -992,11 +1297,24 @@ def gen_link(rng, mol, ninter=None):
             if k >= cls.n_keys_asked:
                 params.append(cls(rng.sample(names, cls.n_keys_asked),
                                   format_spec=rng.choice([None, None, '.3f', '.1f'])))
+        if rng.random() < 0.012:
+            # the effector base class: nothing to compute (NotImplementedError when the link is applied)
+            params.append(LinkParameterEffector(rng.sample(names, rng.randint(0, k)), format_spec=rng.choice([None, '.2f'])))
+        if rng.random() < 0.012 and k >= 1:
+            # an effector naming an atom that is not a node of the link (KeyError when the link is applied)
+            cls = rng.choice([ParamDistance, ParamAngle])
+            keys = rng.sample(names * 3, cls.n_keys_asked - 1)
+            keys.insert(rng.randint(0, len(keys)), 'nowhere')
+            params.append(cls(keys))
+        if rng.random() < 0.006:
+            atoms = atoms[:-1] + ('nowhere',)          # an interaction on an atom the link does not have
         meta = {}
         if rng.random() < 0.4:
             meta['version'] = rng.choice([0, 1, 2])
         if rng.random() < 0.4:
             meta['group'] = rng.choice(['a', 'b'])
+        if not meta and rng.random() < 0.15:
+            meta = None                                # Interaction(meta=None): add_or_replace_interaction makes it {}
         link.interactions.setdefault(ty, []).append(Interaction(atoms=atoms, parameters=params, meta=meta))
     if rng.random() < 0.45:
         ledges = list(link.edges)
@@ -1029,10 +1347,47 @@ def gen_link(rng, mol, ninter=None):
                 params = [rng.choice(['1', '2']), rng.choice(['0.35', '0.47', '0.1']), rng.choice(['1250', '9'])]
             meta = rng.choice([{}, {}, {'version': 1}, {'version': 2}, {'version': 0}, {'version': 3}, {'group': 'g'},
                                {'version': Choice([1, 2])}, {'version': NotDefinedOrNot(1)}])
+            if params and len(atoms) == 2 and rng.random() < 0.08:
+                # a geometry-derived parameter in a removal template (evaluated before the comparison)
+                params = params[:1] + [ParamDistance(list(atoms), format_spec=rng.choice([None, '.2f']))] + params[2:]
             link.removed_interactions.setdefault(ty, []).append(
                 DeleteInteraction(atoms=atoms, atom_attrs=aa, parameters=params, meta=meta))
     if rng.random() < 0.2:
         link.citations = set(rng.sample(['ref1', 'ref2', 'ref3'], rng.randint(1, 2)))
+    if rng.random() < 0.15:
+        # [ info ] / [ warning ] lines of the link: every placement is logged on the molecule
+        for _ in range(rng.choice([1, 1, 2])):
+            link.log_entries[rng.choice([20, 30, 30])][rng.choice(LOG_LINES)] = rng.choice([[], [], ['arg']])
+    return link
+
+
+def gen_three_order_link(rng, mol):
+    """a link over three residues whose atoms carry three distinct orders, ONE of them not an order: the
+    outcome is defined (raises) when the relation between the two valid orders holds for every raw
+    match, and depends on the order of a dictionary otherwise"""
+    bbs = [n for n in mol.nodes if mol.nodes[n].get('atomname') == 'BB']
+    paths = [(a, b, c) for b in bbs for a in mol[b] for c in mol[b]
+             if a != c and a in bbs and c in bbs and not mol.has_edge(a, c)]
+    if not paths:
+        return None
+    a, b, c = rng.choice(paths)
+    link = Link()
+    ra, rb, rc = (mol.nodes[x]['resid'] for x in (a, b, c))
+    bad = rng.choice(['x', '><', '', 1.5, None, '+'])      # no booleans: True == 1 and False == 0 as dictionary keys
+    mode = rng.random()
+    if mode < 0.5:
+        orders = [ra - rb, 0, bad]                # the valid pair holds on the intended placement
+    elif mode < 0.8:
+        orders = ['<' if ra < rb else '>', 0, bad]
+    else:
+        orders = [rng.choice([1, -1, 2]), 0, bad]
+    perm = rng.sample(range(3), 3)                # where the invalid order sits among the link nodes
+    items = [('n%d' % i, orders[i]) for i in range(3)]
+    for i in perm:
+        link.add_node(items[i][0], atomname='BB', order=items[i][1])
+    link.add_edges_from([('n0', 'n1'), ('n1', 'n2')])
+    if rng.random() < 0.3:
+        link.interactions['bonds'] = [Interaction(atoms=('n0', 'n1'), parameters=['1', '0.3'], meta={})]
     return link
 
 
@@ -1100,13 +1455,8 @@ def distinct_orders(link):
     return {repr(a['order']) for a in link.nodes.values() if 'order' in a}
 
 
-def link_ok_for_model(link):
-    """cases whose outcome is defined independently of dictionary / enumeration order"""
-    orders = [a['order'] for a in link.nodes.values() if 'order' in a]
-    invalid = [o for o in orders if o_kind(o) is None]
-    if invalid and len({repr(o) for o in orders}) > 2:
-        return False
-    return True
+def has_invalid_order(link):
+    return any(o_kind(a['order']) is None for a in link.nodes.values() if 'order' in a)
 
 
 # ----------------------------------------------------------------------------
@@ -1117,7 +1467,67 @@ def porder(o):
         return None
     if isinstance(o, bool):
         return [0, int(o)]
+    if isinstance(o, float):
+        return None if not o.is_integer() else int(o)
     return o
+
+
+def pairwise_cases(rng):
+    """the loop over the pairs of an order_match dictionary (first pair that is not satisfied decides; the
+    REAL match_order is called) in the given and in shuffled dictionary orders, against the model's
+    sequential semantics (pairwiseSeq) and its order-free verdict (pairwiseVerdict)"""
+    def seq(items):
+        try:
+            for (o1, r1), (o2, r2) in itertools.combinations(items, 2):
+                if not match_order(o1, r1, o2, r2):
+                    return '0'
+            return '1'
+        except ValueError:
+            return 'valueerror'
+    good = [0, 1, -1, 2, '>', '>>', '<', '*', '**']
+    lines, meta = [], []
+    for i in range(1500 if chk.thorough else 300):
+        k = rng.choice([0, 1, 2, 3, 3, 4])
+        pool = list(good) + (rng.sample(['x', '', '><', None, '+', 1.5], rng.choice([0, 1, 1, 2])))
+        orders = rng.sample(pool, min(k, len(pool)))
+        base = rng.randint(-3, 6)
+        items = []
+        for o in orders:
+            kind = o_kind(o)
+            if kind and kind[0] == 'n' and rng.random() < 0.55:
+                r = base + kind[1]
+            elif kind and kind[0] in '<>' and rng.random() < 0.55:
+                r = base + (kind[1] if kind[0] == '>' else -kind[1])
+            else:
+                r = base + rng.randint(-3, 3)
+            items.append((o, r))
+        outs = [seq(items)]
+        for _ in range(4):
+            sh = list(items)
+            rng.shuffle(sh)
+            outs.append(seq(sh))
+        rels = [o_order_rel(a[0], a[1], b[0], b[1]) for a, b in itertools.combinations(items, 2)]
+        if all(r is True for r in rels):
+            want = 'yes'
+        elif not any(r is None for r in rels):
+            want = 'no'
+        elif not any(r is False for r in rels):
+            want = 'raises'
+        else:
+            want = 'either'
+        allowed = {'yes': {'1'}, 'no': {'0'}, 'raises': {'valueerror'}, 'either': {'0', 'valueerror'}}[want]
+        errs = []
+        if not set(outs) <= allowed:
+            errs.append('pairs of %s: outcomes %s in the given and four shuffled orders; the relations %s allow %s'
+                        % (items, outs, rels, sorted(allowed)))
+        if len(set(outs)) > 1:
+            chk.count('pairwise_outcome_changes_with_order')
+        chk.count('pairwise_' + want)
+        lines.append(line('pairwise', [[porder(o), r] for o, r in items]))
+        meta.append(('pairwise-%d' % i, want + ' ' + outs[0], errs, len(items) >= 2))
+    models = chk.drv.ask(lines) if chk.lean_ok else [None] * len(lines)
+    for ln, mo, (cid, impl, errs, nt) in zip(lines, models, meta):
+        chk.case(cid, ln, impl, mo, errs, nt)
 
 
 def order_cases():
@@ -1148,6 +1558,7 @@ def order_cases():
         lines.append(line('order', porder(o1), r1, porder(o2), r2))
         impls.append(impl)
     models = chk.drv.ask(lines) if chk.lean_ok else [None] * len(lines)
+    pairwise_cases(rng)
     for i, ((o1, r1, o2, r2), ln, im, mo) in enumerate(zip(cases, lines, impls, models)):
         errs = []
         want = o_order_rel(o1, r1, o2, r2)
@@ -1169,24 +1580,34 @@ def match_case(cid, mol, link, lines, pending, cap=60000):
         chk.count('skipped_unsupported_value')
         return
     impl, pls, nraw = real_match(mol, link)
+    shuffled = None
+    if len(distinct_orders(link)) >= 3 and has_invalid_order(link):
+        shuffled = shuffled_outcomes(mol, link, chk.rng('shuffle-' + cid))
     lines.append(line('match', nodes, edges, meta, el))
-    pending.append((cid, mol, link, impl, pls, nraw, cap))
+    pending.append((cid, mol, link, impl, pls, nraw, cap, shuffled))
 
 
 def finish_match_cases(lines, pending):
     models = chk.drv.ask(lines) if chk.lean_ok else [None] * len(lines)
-    for ln, mo, (cid, mol, link, impl, pls, nraw, cap) in zip(lines, models, pending):
+    for ln, mo, (cid, mol, link, impl, pls, nraw, cap, shuffled) in zip(lines, models, pending):
         errs = []
         want = o_all_placements(mol, link, cap)
         names = list(link.nodes)
+        unspecified = isinstance(want, tuple)
+        if unspecified:
+            # an invalid order AND a violated relation among the other orders of one candidate: whether the
+            # code raises or rejects depends on the order of a dictionary; both are accepted
+            want = want[1]
+            chk.count('oracle_outcome_depends_on_dictionary_order')
         if want == 'too-large':
             chk.count('oracle_skipped_too_large')
         elif want == 'raises':
-            if impl != 'error' and link_ok_for_model(link):
+            if impl != 'error':
                 errs.append('the link conditions cannot be evaluated but match_link returned %s' % impl)
         elif impl == 'error':
-            errs.append('match_link raises; the placements satisfying the conditions are %s'
-                        % canon_placements(want, names))
+            if not unspecified:
+                errs.append('match_link raises; the placements satisfying the conditions are %s'
+                            % canon_placements(want, names))
         else:
             w, g = canon_placements(want, names), canon_placements(pls, names)
             if w != g:
@@ -1194,11 +1615,21 @@ def finish_match_cases(lines, pending):
                 extra = [p for p in g if p not in w]
                 errs.append('match_link: placements fitting but not yielded %s; yielded but not fitting %s '
                             '(pairs are [link node index, molecule node]; link nodes %s)' % (missing, extra, names))
-        if not link_ok_for_model(link):
-            chk.count('order_dependent_exception_not_compared')
-            mo_c = None
-        else:
-            mo_c = canon_model_match(mo) if mo is not None else None
+        m_full, dep = canon_model_match(mo) if mo is not None else (None, False)
+        if len(distinct_orders(link)) >= 3 and has_invalid_order(link):
+            chk.count('three_orders_one_invalid_' + ('order_dependent' if dep else 'deterministic_compared'))
+        # dep: the model says "raises, or yields exactly these, depending on the dictionary order"
+        mo_c = 'error' if (dep and impl == 'error') else m_full
+        if shuffled is not None and m_full is not None:
+            # the same match_link with the order_match pairs formed in other dictionary orders
+            m_strip = m_full.split(' ', 1)[1] if ' ' in m_full else m_full
+            for out in shuffled:
+                if not (out == m_strip or (dep and out == 'error')):
+                    mo_c = ('with another order of the order_match dictionary match_link gives %s; model %s%s'
+                            % (out, m_full, ' or error' if dep else ''))
+                    break
+            if len(set(shuffled + [impl.split(' ', 1)[1] if impl != 'error' else 'error'])) > 1:
+                chk.count('real_outcome_changes_with_dictionary_order')
         nontriv = bool(nraw) and (bool(pls) or (pls is not None and nraw > len(pls)))
         chk.count('match_error' if impl == 'error' else 'match_raw=%s' % (min(nraw, 3) if nraw < 3 else '3+'))
         if pls is not None:
@@ -1223,12 +1654,15 @@ def apply_case(cid, mol, links, lines, pending):
     run_ff = ForceField(name='verif_c05_run')
     run_ff.links = links
     work = clone(mol, run_ff)
+    logs0 = canon_logs(work)
     err, used, snaps = run_links(work)
     states = list(run_links.states) + [table_state(work)]
     given = [canon_placements_in_order(u, names) for u, (_, names) in zip(used, els)]
     given += [[] for _ in range(len(links) - len(given))]
-    lines.append(line('apply', nodes, edges, meta, inters, cites, [e for e, _ in els], given))
-    pending.append((cid, before, work, links, err, used, snaps, positions, states, []))
+    lines.append(line('apply', nodes, edges, meta, inters, cites, [e for e, _ in els], given,
+                      enc_pos(mol), [enc_link_logs(l) for l in links], logs0))
+    pending.append((cid, before, work, links, err, used, snaps, positions, states, [],
+                    run_links.calls, run_links.owner, run_links.keep))
 
 
 def gen_variant(rng, mol, ff):
@@ -1270,7 +1704,9 @@ def history_case(cid, mols, links, mode, lines, pending):
     ff.links = links
     befores = [clone(m) for m in mols]
     works = [clone(m, ff) for m in mols]
-    rec = {id(w): {'used': [], 'snaps': [], 'states': []} for w in works}
+    rec = {id(w): {'used': [], 'snaps': [], 'states': [], 'in_match': False} for w in works}
+    logs0 = [canon_logs(w) for w in works]
+    owner, keep = {}, []
     orig = do_links.match_link
 
     def wrapper(molecule, link):
@@ -1282,28 +1718,36 @@ def history_case(cid, mols, links, mode, lines, pending):
             r['snaps'].append(None)
         cur = []
         r['used'].append(cur)
-        for pl in orig(molecule, link):
-            cur.append(dict(pl))
-            yield pl
+        names = list(link.nodes)
+        try:
+            for pl in orig(molecule, link):
+                cur.append(dict(pl))
+                owner[id(pl)] = names
+                keep.append(pl)
+                yield pl
+        except Exception:
+            r['in_match'] = True
+            raise
     do_links.match_link = wrapper
     errs_run = [None] * len(works)
     proc = DoLinks()
-    try:
-        if mode == 'system':
-            system = vermouth.System(force_field=ff)
-            system.molecules = list(works)
-            try:
-                proc.run_system(system)
-            except (ValueError, TypeError, KeyError) as e:
-                errs_run = [type(e).__name__] * len(works)
-        else:
-            for j, w in enumerate(works):
+    with CallRecorder() as cr:
+        try:
+            if mode == 'system':
+                system = vermouth.System(force_field=ff)
+                system.molecules = list(works)
                 try:
-                    proc.run_molecule(w)
-                except (ValueError, TypeError, KeyError) as e:
-                    errs_run[j] = type(e).__name__
-    finally:
-        do_links.match_link = orig
+                    proc.run_system(system)
+                except RUN_ERRORS as e:
+                    errs_run = [type(e).__name__] * len(works)
+            else:
+                for j, w in enumerate(works):
+                    try:
+                        proc.run_molecule(w)
+                    except RUN_ERRORS as e:
+                        errs_run[j] = 'match' if rec[id(w)]['in_match'] else type(e).__name__
+        finally:
+            do_links.match_link = orig
     if mode == 'system' and any(errs_run):
         chk.count('history_system_error_skipped')
         return
@@ -1317,9 +1761,9 @@ def history_case(cid, mols, links, mode, lines, pending):
         try:
             DoLinks().run_molecule(fresh)
             fresh_err = None
-        except (ValueError, TypeError, KeyError) as e:
+        except RUN_ERRORS as e:
             fresh_err = type(e).__name__
-        if fresh_err != errs_run[j]:
+        if (fresh_err is None) != (errs_run[j] is None) or (fresh_err and errs_run[j] != 'match' and fresh_err != errs_run[j]):
             extra.append('molecule %d of the history: outcome %s, with a fresh force field and processor %s'
                          % (j, errs_run[j], fresh_err))
         elif not fresh_err and not states_agree(real_state(w), real_state(fresh)):
@@ -1330,9 +1774,11 @@ def history_case(cid, mols, links, mode, lines, pending):
         positions = {n: m.nodes[n].get('position') for n in m.nodes}
         given = [canon_placements_in_order(u, names) for u, (_, names) in zip(r['used'], els)]
         given += [[] for _ in range(len(links) - len(given))]
-        lines.append(line('apply', nodes, edges, meta, inters, cites, [e for e, _ in els], given))
+        lines.append(line('apply', nodes, edges, meta, inters, cites, [e for e, _ in els], given,
+                          enc_pos(m), [enc_link_logs(l) for l in links], logs0[j]))
         states = r['states'] + [table_state(w)]
-        pending.append(('%s-mol%d' % (cid, j), b, w, links, errs_run[j], r['used'], r['snaps'], positions, states, extra))
+        pending.append(('%s-mol%d' % (cid, j), b, w, links, errs_run[j], r['used'], r['snaps'], positions, states, extra,
+                        cr.calls.get(id(w), []), owner, keep))
         chk.count('history_molecules')
         if j > 0 and any(isinstance(p, LinkParameterEffector) for l in links for lst in l.interactions.values()
                          for i in lst for p in i.parameters) and sum(len(u) for u in r['used']):
@@ -1343,45 +1789,138 @@ def canon_placements_in_order(placements, names):
     return [[[i, int(p[n])] for i, n in enumerate(names)] for p in placements]
 
 
+def check_survival(events, calls, after):
+    """the model's verdict 'no later step writes this identity, no later removal template matches it,
+    none of its atoms is deleted later' (the side conditions of theorem last_writer_wins, evaluated by the
+    model on its own trace) against the REAL final table: such an addition must be there at the end, with
+    exactly the parameters and meta the real code wrote at that call"""
+    m_adds = [e for e in events if e[0] == 'add']
+    r_adds = [c for c in calls if c[0] == 'add']
+    if len(m_adds) != len(r_adds):
+        return None          # the call sequences differ: reported by the state comparison
+    for e, c in zip(m_adds, r_adds):
+        _, ty, atoms, ver, wr, rm, dl = e
+        found = [i for i in after.interactions.get(ty, []) if list(i.atoms) == list(atoms)
+                 and pval(i.meta.get('version', 0)) == ver]
+        if not (wr or rm or dl):
+            chk.count('model_says_addition_survives')
+            if not found:
+                return 'the model says nothing interferes with %s %s version %s after it is written, but it is not in the result' % (ty, atoms, ver)
+            if not (list(found[0].parameters) == list(c[3]) and found[0].meta == (c[4] or {})):
+                return ('the model says nothing interferes with %s %s version %s after it is written with %s %s, the result holds %s %s'
+                        % (ty, atoms, ver, c[3], c[4], found[0].parameters, found[0].meta))
+        elif dl:
+            chk.count('model_says_addition_deleted_with_atom')
+            if found:
+                return 'the model says an atom of %s %s is deleted after it is written, but it is in the result' % (ty, atoms)
+        else:
+            chk.count('model_says_addition_overwritten_or_removed')
+    return ''
+
+
+def check_attr_writes(writes, before, after):
+    """theorem replace_attrs_final on the real result: the attributes of every surviving node are its input
+    attributes updated with the model's list of attribute writes for that node (in processing order)"""
+    if writes is None:
+        return ''
+    for k, kvs in writes:
+        if k not in after.nodes:
+            return 'the model keeps node %s, the real result does not' % k
+        want = [[a, v] for a, v in pattrs(simple_attrs(before.nodes[k]))]
+        d = {a: v for a, v in want}
+        for a, v in kvs:
+            d[a] = v
+        got = {a: v for a, v in pattrs(simple_attrs(after.nodes[k]))}
+        if d != got:
+            return 'node %s: input attributes + the model\'s attribute writes %s give %s, the result has %s' % (k, kvs, d, got)
+        if kvs:
+            chk.count('model_attribute_writes_checked')
+    return ''
+
+
 def finish_apply_cases(lines, pending):
     models = chk.drv.ask(lines) if chk.lean_ok else [None] * len(lines)
-    for ln, mo, (cid, before, after, links, err, used, snaps, positions, states, extra) in zip(lines, models, pending):
+    for ln, mo, (cid, before, after, links, err, used, snaps, positions, states, extra, calls, owner, keep) in zip(lines, models, pending):
         errs, finding = [], None
         interfering = any(s is not None and sorted(map(lambda p: sorted(p.items(), key=str), s)) !=
                           sorted(map(lambda p: sorted(p.items(), key=str), u))
                           for s, u in zip(snaps, used))
         if err:
-            impl_state, impl = 'error', 'error'
-            if all(s is not None for s in snaps) and len(snaps) == len(links):
-                errs.append('DoLinks raised %s although every match_link call succeeds on a snapshot' % err)
+            impl_state, impl = 'error', 'error:' + err
+            if err != 'match' and not (all(s is not None for s in snaps)):
+                errs.append('DoLinks raised %s outside match_link although a match_link call fails on a snapshot' % err)
+            if err == 'match' and all(s is not None for s in snaps) and len(snaps) == len(links):
+                errs.append('match_link raised inside DoLinks although every match_link call succeeds on a snapshot')
+            if err not in ('match',):
+                want = effector_error_oracle(before, links, used, positions)
+                if want != err:
+                    errs.append('DoLinks raised %s; the effectors / atoms of the links on the placements used give %s' % (err, want))
         else:
-            impl_state = real_state(after)
+            impl_state = real_state(after, owner, calls)
             impl = show(impl_state)
-            errs = apply_oracle(before, after, links, snaps, used, positions)
-            errs += removal_oracle(states, links, used, positions)
+            want = effector_error_oracle(before, links, used, positions)
+            if want is not None:
+                errs.append('DoLinks returned normally although the effectors of the links on the placements used give %s' % want)
+            else:
+                errs = apply_oracle(before, after, links, snaps, used, positions, calls)
+                errs += removal_oracle(states, links, used, positions)
         errs += extra
-        mstate = model_state(mo, positions) if mo is not None else None
+        mstate, maybe, events = model_state(mo, positions) if mo is not None else (None, False, None)
         if mstate is None:
             mo_c = None
         elif isinstance(mstate, str):
             mo_c = mstate
         else:
             mo_c = impl if (not isinstance(impl_state, str) and states_agree(impl_state, mstate)) else show(mstate)
-        if not all(link_ok_for_model(l) for l in links):
-            chk.count('order_dependent_exception_not_compared')
-            mo_c = None
+            if mo_c == impl and events is not None:
+                verdict = check_survival(events, calls, after) or check_attr_writes(model_state.attr_writes, before, after)
+                if verdict:
+                    mo_c = verdict
+        if maybe:
+            # some match_link of the run raises or not depending on a dictionary order (see level note)
+            chk.count('apply_outcome_depends_on_dictionary_order')
+            if impl == 'error:match':
+                mo_c = impl
         if interfering:
             chk.count('apply_placements_changed_while_applying')
         if any(self_interfering(l) for l in links):
             chk.count('apply_replace_of_tested_attribute')
         nplace = sum(len(u) for u in used)
-        chk.count('apply_error' if err else 'apply_placements=%s' % (nplace if nplace < 4 else '4+'))
+        chk.count('apply_error_' + err if err else 'apply_placements=%s' % (nplace if nplace < 4 else '4+'))
         if not err:
             if set(before.nodes) - set(after.nodes):
                 chk.count('apply_nodes_removed')
             if any('replace' in a for l in links for a in l.nodes.values()) and nplace:
                 chk.count('apply_replace_used')
+            if any(l.log_entries for l in links) and nplace:
+                chk.count('apply_log_entries_written')
         chk.case(cid, ln, impl, mo_c, errs, nplace > 0, finding=finding)
+
+
+def effector_error_oracle(before, links, used, positions):
+    """independent statement of the exceptions of link parameters: for the placements used, in order, the
+    first removal template / interaction (in that order) with an atom that is not a node of the link, an
+    effector naming such an atom, the effector base class (nothing to compute), or an effector reading
+    an atom without coordinates"""
+    for li, link in enumerate(links):
+        if li >= len(used):
+            break
+        for pl in used[li]:
+            todo = [d for lst in link.removed_interactions.values() for d in lst]
+            todo += [i for lst in link.interactions.values() for i in lst]
+            for inter in todo:
+                if any(a not in pl for a in inter.atoms):
+                    return 'KeyError'
+                for p in inter.parameters:
+                    if not isinstance(p, LinkParameterEffector):
+                        continue
+                    if any(k not in pl for k in p.keys):
+                        return 'KeyError'
+                    if type(p) is LinkParameterEffector:
+                        return 'NotImplementedError'
+                    if any(positions.get(pl[k]) is None for k in p.keys):
+                        return 'KeyError'
+    return None
 
 
 def corpus_cases():
@@ -1492,6 +2031,51 @@ def corpus_cases():
     out.append(('a', mol, list(tff.links)))
     mol = chain([1, 2, 2, 3], ('BB', 'SC1', 'SC2'))
     out.append(('a', mol, list(tff.links)))
+
+    # --- effector mechanics (extension round): atoms on the integer lattice, exact distances
+    def lattice_chain(resids):
+        mol = chain(resids)
+        for k_ in mol.nodes:
+            mol.nodes[k_]['position'] = np.array([(3 * k_) / float(LATTICE), (k_ * k_) / float(LATTICE), -(5 * k_ % 7) / float(LATTICE)])
+        return mol
+    bb2 = [('BB', {'atomname': 'BB', 'order': 0}), ('+BB', {'atomname': 'BB', 'order': 1})]
+    le = mk(bb2, [('BB', '+BB')])
+    le.interactions['bonds'] = [Interaction(atoms=('BB', '+BB'), parameters=['1', ParamDistance(['BB', '+BB']), '1250'], meta=None),
+                                Interaction(atoms=('+BB', 'BB'), parameters=['1', ParamDistance(['+BB', 'BB'], format_spec='.4f')], meta={'version': 1})]
+    le.log_entries[30]['bond written'] = []
+    le.log_entries[20]['note {atomname}'] = ['arg']
+    out.append(('a', lattice_chain([1, 2, 3, 5]), [le, le]))
+    # the distance is taken between the atoms NAMED in the effector, not the atoms of the interaction
+    lx = mk([('-BB', {'atomname': 'BB', 'order': -1})] + bb2, [('-BB', 'BB'), ('BB', '+BB')])
+    lx.interactions['bonds'] = [Interaction(atoms=('BB', '+BB'), parameters=['1', ParamDistance(['-BB', '+BB'])], meta={}),
+                                Interaction(atoms=('-BB', 'BB'), parameters=[ParamAngle(['BB', '-BB', '+BB'])], meta={})]
+    out.append(('a', lattice_chain([1, 2, 3, 4]), [lx]))
+    # error outcomes: the base class, a name that is not a node of the link, an atom without coordinates
+    lb = mk(bb2, [('BB', '+BB')])
+    lb.interactions['bonds'] = [Interaction(atoms=('BB', '+BB'), parameters=['1', LinkParameterEffector(['BB'])], meta={})]
+    out.append(('a', lattice_chain([1, 2]), [le, lb]))
+    lk = mk(bb2, [('BB', '+BB')])
+    lk.interactions['bonds'] = [Interaction(atoms=('BB', '+BB'), parameters=['1', ParamDistance(['BB', '++BB'])], meta={})]
+    out.append(('a', lattice_chain([1, 2]), [lk]))
+    out.append(('a', lattice_chain([1, 3]), [lk]))           # fits nowhere: nothing is evaluated, no error
+    mol = lattice_chain([1, 2, 3])
+    del mol.nodes[2]['position']
+    out.append(('a', mol, [le]))
+    lr = mk(bb2, [('BB', '+BB')])
+    lr.removed_interactions['bonds'] = [DeleteInteraction(atoms=('BB', '+BB'), atom_attrs=[{}, {}],
+                                                          parameters=['1', LinkParameterEffector(['BB', '+BB'])], meta={})]
+    out.append(('a', lattice_chain([1, 2]), [lr, le]))
+    # three distinct orders, one of them not an order: raises when the valid pair holds for a raw match;
+    # when it holds for none the outcome depends on a dictionary order (chain 1,2,4: the pair (0, +1) fails
+    # for the raw matches around residue 4)
+    for bad in ('x', 1.5):
+        l3 = mk([('a', {'atomname': 'BB', 'order': 0}), ('b', {'atomname': 'BB', 'order': 1}), ('c', {'atomname': 'BB', 'order': bad})],
+                [('a', 'b'), ('b', 'c')])
+        out.append(('m', chain([1, 2, 3]), l3))
+        out.append(('m', chain([1, 3, 5]), l3))
+        l3b = mk([('c', {'atomname': 'BB', 'order': bad}), ('a', {'atomname': 'BB', 'order': 0}), ('b', {'atomname': 'BB', 'order': 1})],
+                 [('a', 'b'), ('b', 'c')])
+        out.append(('m', chain([1, 3, 5]), l3b))
     return out
 
 
@@ -1580,12 +2164,15 @@ def link_stream():
     for i in range(n):
         mol = gen_molecule(rng, ff)
         link = gen_link(rng, mol)
-        if rng.random() < 0.03:
-            # an order that is not valid (at most two distinct orders: the outcome is then well defined)
+        if rng.random() < 0.04:
+            # an order that is not valid (with three or more distinct orders the model says whether the
+            # outcome depends on a dictionary order)
             names = list(link.nodes)
-            link.nodes[rng.choice(names)]['order'] = rng.choice(BAD_ORDERS[:6] + ['x'])
-            if len(distinct_orders(link)) > 2:
-                continue
+            link.nodes[rng.choice(names)]['order'] = rng.choice(BAD_ORDERS[:6] + ['x', 1.5])
+        elif rng.random() < 0.06:
+            l3 = gen_three_order_link(rng, mol)
+            if l3 is not None:
+                link = l3
         match_case('match-%d' % i, mol, link, lines, pending)
     finish_match_cases(lines, pending)
     rng = chk.rng('apply')
@@ -1604,6 +2191,10 @@ def link_stream():
                     links.insert(rng.randint(0, len(links)), l)
         if links and rng.random() < 0.3:
             links.append(copy.deepcopy(rng.choice(links)))     # the same link again: everything is replaced
+        if rng.random() < 0.03:
+            l3 = gen_three_order_link(rng, mol)
+            if l3 is not None:
+                links.insert(rng.randint(0, len(links)), l3)
         if not links:
             continue
         apply_case('apply-%d' % i, mol, links, alines, apending)
@@ -1655,8 +2246,273 @@ def link_stream():
     finish_apply_cases(alines, apending)
 
 
+# ----------------------------------------------------------------------------
+# stream 4: the effector classes called directly
+# ----------------------------------------------------------------------------
+def effector_cases():
+    rng = chk.rng('effector')
+    names = ['a', 'b', 'c', 'd', 'e']
+    kidx = {n: i for i, n in enumerate(names)}
+    classes = [ParamDistance, ParamAngle, ParamDihedral, ParamDihedralPhase, LinkParameterEffector]
+    lines, meta = [], []
+    n = 4000 if chk.thorough else 700
+
+    def rand_eff(force_ok=True):
+        cls = rng.choice(classes)
+        want = cls.n_keys_asked if cls.n_keys_asked is not None else rng.randint(0, 4)
+        nk = want if (force_ok or rng.random() < 0.6) else rng.choice([x for x in range(0, 6) if x != want])
+        keys = rng.sample(names, nk) if nk <= len(names) else [rng.choice(names) for _ in range(nk)]
+        return cls, keys, rng.choice([None, None, '.2f', '.3f', '8.4f'])
+    for i in range(n):
+        kind = rng.choice(['new', 'eq', 'call', 'call', 'call'])
+        if kind == 'new':
+            # __init__: the number of keys against n_keys_asked
+            cls, keys, fmt = rand_eff(force_ok=False)
+            try:
+                cls(keys, format_spec=fmt)
+                impl = 'ok'
+            except ValueError:
+                impl = 'valueerror'
+            want = 'ok' if cls.n_keys_asked is None or len(keys) == cls.n_keys_asked else 'valueerror'
+            errs = [] if impl == want else ['%s(%r) gives %s; %s keys are required' % (cls.__name__, keys, impl, cls.n_keys_asked)]
+            lines.append(line('effnew', EFFECTORS[cls], [kidx[k] for k in keys], fmt))
+            meta.append(('effnew-%d' % i, impl, errs, lambda mo: mo, impl == 'valueerror'))
+            chk.count('effector_init_' + impl)
+        elif kind == 'eq':
+            # __eq__: same class, same keys in the same order, same format; never equal to something else
+            c1, k1, f1 = rand_eff()
+            r = rng.random()
+            if r < 0.35:
+                c2, k2, f2 = c1, list(k1), f1
+            elif r < 0.7:
+                c2, k2, f2 = c1, list(k1), f1
+                w = rng.choice(['class', 'keys', 'format', 'order'])
+                if w == 'class':
+                    same_n = [c for c in classes if c is not c1 and c.n_keys_asked in (None, len(k1))]
+                    c2 = rng.choice(same_n) if same_n else c1
+                elif w == 'keys' and k2:
+                    k2[rng.randrange(len(k2))] = rng.choice(names)
+                elif w == 'order':
+                    k2 = k2[::-1]
+                else:
+                    f2 = rng.choice([None, '.2f', '.5f'])
+            else:
+                c2, k2, f2 = rand_eff()
+            e1 = c1(k1, format_spec=f1)
+            other_kind = rng.random() < 0.12
+            e2 = rng.choice(['0.33', 'dist']) if other_kind else c2(k2, format_spec=f2)
+            impl = '1' if (e1 == e2) else '0'
+            want = '1' if (not other_kind and c1 is c2 and k1 == k2 and f1 == f2) else '0'
+            errs = [] if impl == want else ['%r == %r gives %s' % ((c1.__name__, k1, f1), e2 if other_kind else (c2.__name__, k2, f2), impl)]
+            if not other_kind and (e2 == e1) != (e1 == e2):
+                errs.append('effector equality is not symmetric')
+            p2 = e2 if other_kind else [EFFECTORS[c2], [kidx[k] for k in k2], f2]
+            lines.append(line('effeq', [EFFECTORS[c1], [kidx[k] for k in k1], f1], p2))
+            meta.append(('effeq-%d' % i, impl, errs, lambda mo: mo, True))
+            chk.count('effector_eq_' + impl)
+        else:
+            # __call__: the atoms are looked up through the match, in the effector's order
+            cls, keys, fmt = rand_eff()
+            mol = Molecule()
+            atoms = rng.sample(range(0, 30), 6)
+            for a in atoms:
+                r = rng.random()
+                if r < 0.8:
+                    mol.add_node(a, position=np.array([rng.randint(-3 * LATTICE, 3 * LATTICE) / float(LATTICE) for _ in range(3)]))
+                elif r < 0.93:
+                    mol.add_node(a, position=np.array([rng.uniform(-3, 3) for _ in range(3)]))
+                else:
+                    mol.add_node(a)
+            match = {nm: a for nm, a in zip(names, rng.sample(atoms, 5)) if rng.random() < 0.9}
+            if rng.random() < 0.05:
+                match[rng.choice(names)] = 99            # not a node of the molecule
+            eff = cls(keys, format_spec=fmt)
+            try:
+                val = eff(mol, match)
+                impl_v, impl = val, 'value'
+            except Exception as e:
+                impl_v, impl = None, '!' + type(e).__name__
+            # independent statement
+            if any(k not in match for k in keys):
+                want = '!KeyError'
+            elif cls is LinkParameterEffector:
+                want = '!NotImplementedError'
+            elif any(match[k] not in mol.nodes or 'position' not in mol.nodes[match[k]] for k in keys):
+                want = '!KeyError'
+            else:
+                want = 'value'
+            errs = []
+            positions = {a: mol.nodes[a].get('position') for a in mol.nodes}
+            if impl != want:
+                errs.append('%s(%r)(molecule, %r) gives %s, expected %s' % (cls.__name__, keys, match, impl, want))
+            elif impl == 'value':
+                exp = eval_params([eff], positions, match)[0]
+                if not param_close(exp, impl_v):
+                    errs.append('%s(%r, %r) on the atoms %s gives %r, expected %r'
+                                % (cls.__name__, keys, fmt, [match[k] for k in keys], impl_v, exp))
+                if isinstance(exp, ExactDist):
+                    chk.count('effector_call_exact_distance')
+            lines.append(line('effcall', EFFECTORS[cls], [kidx[k] for k in keys], fmt,
+                              [[kidx[k], v] for k, v in match.items()], enc_pos(mol)))
+
+            def judge(mo, impl=impl, impl_v=impl_v, positions=positions):
+                d = dec(mo)[0]
+                if isinstance(d, str):
+                    return d                     # '!KeyError' / '!NotImplementedError'
+                mv = model_param(d, positions)
+                return 'value' if (impl == 'value' and param_close(mv, impl_v)) else 'model value %r' % (mv,)
+            meta.append(('effcall-%d' % i, impl, errs, judge, True))
+            chk.count('effector_call_' + impl.strip('!'))
+    models = chk.drv.ask(lines) if chk.lean_ok else [None] * len(lines)
+    for ln, mo, (cid, impl, errs, judge, nontriv) in zip(lines, models, meta):
+        chk.case(cid, ln, impl, judge(mo) if mo is not None else None, errs, nontriv)
+
+
+# ----------------------------------------------------------------------------
+# stream 5: the interaction-table API called directly
+# ----------------------------------------------------------------------------
+def table_cases():
+    rng = chk.rng('table')
+    ff = ForceField(name='verif_c05_table')
+    lines, meta = [], []
+    n = 2500 if chk.thorough else 450
+    TYPES = ['bonds', 'angles', 'constraints']
+    for i in range(n):
+        mol = gen_molecule(rng, ff, nres=rng.randint(1, 3))
+        add_initial_interactions(rng, mol)
+        nodes = list(mol.nodes)
+        try:
+            e_nodes, e_edges, e_meta, e_inters, e_cites = enc_mol(mol)
+        except Unsupported:
+            chk.count('skipped_unsupported_value')
+            continue
+        ops, flags, errs = [], [], []
+        shadow = {ty: [(tuple(x.atoms), list(x.parameters), dict(x.meta)) for x in lst] for ty, lst in mol.interactions.items()}
+        cites = set(mol.citations)
+
+        def ident(ty, atoms, ver):
+            return [j for j, x in enumerate(shadow.get(ty, [])) if x[0] == tuple(atoms) and x[2].get('version', 0) == ver]
+        for _ in range(rng.randint(1, 6)):
+            existing = [(ty, x) for ty, lst in mol.interactions.items() for x in lst]
+            if existing and rng.random() < 0.6:
+                ty, x = rng.choice(existing)
+                atoms = list(x.atoms)
+                ver = x.meta.get('version', 0)
+            else:
+                ty = rng.choice(TYPES)
+                atoms = rng.sample(nodes, min(len(nodes), rng.choice([1, 2, 2, 3])))
+                ver = rng.choice([0, 0, 1, 2])
+            if rng.random() < 0.12:
+                atoms = atoms[:-1] + [rng.choice([777, 778])]          # not a node of the molecule
+            params = [rng.choice(['1', '2']), rng.choice(['0.2', '0.25'])]
+            md = rng.choice([None, {}, {'version': ver}, {'version': ver, 'group': 'z'}, {'group': 'z'}])
+            op = rng.choice(['add', 'addrep', 'addrep', 'addrep', 'remove', 'remmatch'])
+            known = all(a in mol.nodes for a in atoms)
+            if op == 'add':
+                ops.append(['add', ty, atoms, params, None if md is None else pattrs(md)])
+                try:
+                    mol.add_interaction(ty, atoms, params) if md is None else mol.add_interaction(ty, atoms, params, dict(md))
+                    ok = True
+                except KeyError:
+                    ok = False
+                if ok != known:
+                    errs.append('add_interaction on atoms %s: %s' % (atoms, 'accepted' if ok else 'KeyError'))
+                if ok:
+                    shadow.setdefault(ty, []).append((tuple(atoms), params, dict(md or {})))
+            elif op == 'addrep':
+                cs = rng.choice([None, None, ['refA'], ['refB', 'ref1'], []])
+                ops.append(['addrep', ty, atoms, params, None if md is None else pattrs(md), cs])
+                args = [ty, atoms, params] + ([] if md is None else [dict(md)])
+                try:
+                    if cs is None:
+                        mol.add_or_replace_interaction(*args)
+                    else:
+                        mol.add_or_replace_interaction(*args, citations=set(cs)) if md is None else mol.add_or_replace_interaction(*args, set(cs))
+                    ok = True
+                except KeyError:
+                    ok = False
+                hits = ident(ty, atoms, (md or {}).get('version', 0))
+                if ok != (bool(hits) or known):
+                    errs.append('add_or_replace_interaction on atoms %s (identity present: %s): %s'
+                                % (atoms, bool(hits), 'accepted' if ok else 'KeyError'))
+                if ok:
+                    if hits:
+                        shadow[ty][hits[0]] = (tuple(atoms), params, dict(md or {}))
+                    else:
+                        shadow.setdefault(ty, []).append((tuple(atoms), params, dict(md or {})))
+                    cites |= set(cs or [])
+            elif op == 'remove':
+                ops.append(['remove', ty, atoms, pval(ver)])
+                try:
+                    mol.remove_interaction(ty, tuple(atoms), ver) if ver != 0 or rng.random() < 0.5 else mol.remove_interaction(ty, tuple(atoms))
+                    ok = True
+                except KeyError:
+                    ok = False
+                hits = ident(ty, atoms, ver)
+                if ok != bool(hits):
+                    errs.append('remove_interaction %s %s version %s: %s although the identity is %s'
+                                % (ty, atoms, ver, 'done' if ok else 'KeyError', 'present' if hits else 'absent'))
+                if ok and hits:
+                    del shadow[ty][hits[0]]
+            else:
+                tmeta = rng.choice([{}, {}, {'version': ver}, {'version': Choice([1, 2])}, {'group': 'z'}])
+                tparams = rng.choice([[], [], params, ['1', '0.35', '1250']])
+                aa = [{} for _ in atoms]
+                if rng.random() < 0.2:
+                    aa[0] = {'atomname': rng.choice(ATOMNAMES)}
+                tmpl = DeleteInteraction(atoms=tuple(atoms), atom_attrs=aa, parameters=tparams, meta=tmeta)
+                ops.append(['remmatch', [ty, atoms, [str(q) for q in tparams], [pattrs(a, ptval) for a in aa], pattrs(tmeta, ptval)]])
+                try:
+                    mol.remove_matching_interaction(ty, tmpl)
+                    ok = True
+                except ValueError:
+                    ok = False
+                except KeyError:
+                    ok = None           # a table entry on an atom that is not a node (replace path above)
+                if ok is None:
+                    ops.pop()
+                    chk.count('table_remmatch_on_unknown_atom_skipped')
+                    continue
+                hits = [j for j, x in enumerate(shadow.get(ty, [])) if x[0] == tuple(atoms)
+                        and (not tparams or list(tparams) == list(x[1])) and o_attrs_ok(x[2], tmeta)
+                        and all(o_attrs_ok(mol.nodes[a], ta) for a, ta in zip(atoms, aa))]
+                if ok != bool(hits):
+                    errs.append('remove_matching_interaction %s %s %s %s: %s although %d entries match'
+                                % (ty, atoms, tparams, tmeta, 'done' if ok else 'ValueError', len(hits)))
+                if ok and hits:
+                    del shadow[ty][hits[0]]
+            flags.append(1 if ok else 0)
+            chk.count('table_%s_%s' % (op, 'ok' if ok else 'raises'))
+        types = sorted(set(TYPES) | set(mol.interactions))
+        got = [[ty, [[list(x.atoms), [str(q) for q in x.parameters], sorted(pattrs(x.meta))] for x in mol.get_interaction(ty)]]
+               for ty in types]
+        exp = [[ty, [[list(a), [str(q) for q in ps], sorted(pattrs(m_))] for a, ps, m_ in shadow.get(ty, [])]] for ty in types]
+        if got != exp:
+            errs.append('interaction table after the calls %s, expected %s' % (got, exp))
+        if set(mol.citations) != cites:
+            errs.append('citations %s, expected %s' % (sorted(mol.citations), sorted(cites)))
+        impl = enc([flags, got, sorted(mol.citations)])
+        lines.append(line('table', e_nodes, e_edges, e_meta, e_inters, e_cites, ops, types))
+        meta.append(('table-%d' % i, impl, errs, len(ops) > 0))
+    models = chk.drv.ask(lines) if chk.lean_ok else [None] * len(lines)
+    for ln, mo, (cid, impl, errs, nontriv) in zip(lines, models, meta):
+        mo_c = None
+        if mo is not None:
+            try:
+                d = dec(mo)
+                mo_c = enc([d[0], [[ty, [[a, ps, sorted(m_)] for a, ps, m_ in lst]] for ty, lst in d[1]], sorted(d[2])])
+            except Exception:
+                mo_c = mo
+        chk.case(cid, ln, impl, mo_c, errs, nontriv)
+
+
 link_stream()
 order_cases()
+effector_cases()
+table_cases()
+if os.environ.get('VERIF_C05_DEBUG'):
+    with open(os.environ['VERIF_C05_DEBUG'], 'w') as f_:
+        json.dump({'failures': chk.failures, 'disagreements': chk.disagreements, 'corpus': _seen}, f_, default=repr)
 if chk.thorough:
     import c05_real
     c05_real.run(chk, globals())
